@@ -370,12 +370,15 @@ Definition st_finalize (s : wstate) : wstate * out :=
 
 (* ---- Resume ------------------------------------------------------------------------------------ *)
 Definition roots_contains (rs : list bytes) (r : bytes) : bool := existsb (bytes_eqb r) rs.
-(* CarHeader.Matches (h = header in the file, other = requested) *)
+Definition roots_count (rs : list bytes) (r : bytes) : N := N.of_nat (length (filter (bytes_eqb r) rs)).
+(* CarHeader.Matches (h = header in the file, other = requested): same length and every root of h
+   occurs equally often in both (repaired: it used to test only that other contains each root of
+   h, so [a;a] matched [a;b]; notes/fixes/C12-matches-root-multiset.patch) *)
 Definition header_matches (hroots : list bytes) (hver : N) (roots : list bytes) : bool :=
   (hver =? 1) && (N.of_nat (length hroots) =? N.of_nat (length roots)) &&
   match hroots, roots with
   | [a], [b] => bytes_eqb a b
-  | _, _ => forallb (roots_contains roots) hroots
+  | _, _ => forallb (fun r => roots_count hroots r =? roots_count roots r) hroots
   end.
 
 (* the section loop of Resume over the payload view; pos is relative to the payload start.
